@@ -203,7 +203,8 @@ def run(chk, repo):
                     bad.append(norm_stmt(n))
     chk.ob('C05.b', 'W2F pass writes the pool only through setdefault / guarded insert / add', vt.where, not bad,
            f"non-additive writes: {bad}", key=vt.qual + '::additive', fn=vt.qual)
-    chk.ob('C05.b', 'existing metadata is never overwritten (an entry is stored only when its key is known absent)', vt.where, bool(stores) and not unguarded,
+    setdefaults = [n for n in ast.walk(nvt) if isinstance(n, ast.Call) and isinstance(n.func, ast.Attribute) and n.func.attr == 'setdefault' and pool_base(n.func.value)]
+    chk.ob('C05.b', 'existing metadata is never overwritten (an entry is stored only when its key is known absent)', vt.where, (bool(stores) or bool(setdefaults)) and not unguarded,
            f"insert guard removed: {unguarded or 'no guarded store found'}", key=vt.qual + '::no-overwrite', fn=vt.qual)
     it = [l for l in ast.walk(nvt) if isinstance(l, ast.For) and re.search(r'self\.peptides(?![\w\[.])', unparse(l.iter))]
     ok = len(it) >= 1 and all(isinstance(l.iter, ast.Call) and call_name(l.iter) in ('copy', 'list', 'tuple', 'dict', 'deepcopy', 'sorted') for l in it)
